@@ -37,6 +37,12 @@ fn main() {
         "C01" => p_duration::c01(&mut rec, &lm, &mut rng, thorough),
         "C02" => p_duration::c02(&mut rec, &lm, &mut rng, thorough),
         "C03" => p_duration::c03(&mut rec, &lm, &mut rng, thorough),
+        "SELFTEST" => {
+            rec.pinned = true;
+            rec.episode();
+            rec.pinned = true;
+            p_duration::selftest(&mut rec, &lm, &mut rng);
+        }
         "C14" => {
             let g = p_duration::DurGen::new(&lm);
             let mut m = p_duration::DM::new(&mut rec);
